@@ -523,15 +523,31 @@ def run_unit(unit):
     return dict(n=n, hashes=hashes.tobytes(), outcomes=outcomes, found=found, samples=samples)
 
 
+_POS = {}
+
+
 def cost(unit):
-    return (BASES[unit[1]]['auth'] == 'rsa') * 50 + (unit[0] == 'k2') * 10
+    """estimated run time of a unit (number of cases x 1, or x 30 where the RSA private key is parsed): the
+    longest units are started first so that the 16 workers finish together"""
+    bi = unit[1]
+    if bi not in _POS:
+        _POS[bi] = positions(BASES[bi])
+    pos = _POS[bi]
+    if unit[0] == 'k2':
+        n = len(pos[unit[2]][1]) * sum(len(v) for p, v in pos[unit[2] + 1:] if not conflict(pos[unit[2]][0], p))
+    elif unit[0] == 'k1':
+        n = sum(len(v) for _, v in pos)
+    else:
+        n = 1 if unit[0] == 'k0' else 3 ** 5
+    return n * (30 if BASES[bi]['auth'] == 'rsa' else 1)
 
 
 def units():
     out = []
     for bi, base in enumerate(BASES):
         out.append(('k0', bi))
-        out.append(('k1', bi))
+        if k1_base(base):
+            out.append(('k1', bi))
     k2 = [bi for bi, b in enumerate(BASES) if k2_base(b)]
     for bi in k2:
         for pi in range(len(positions(BASES[bi])) - 1):
@@ -546,12 +562,19 @@ def units():
     return out, [BASES[bi]['label'] for bi in k2]
 
 
+def k1_base(b):
+    """bases on which every SINGLE deviation is run: all 64, except that the quick tier leaves out the RSA bases with
+    two connections or two protect entries (each RSA case costs 4 ms for parsing the private key)"""
+    return not ck.quick or b['auth'] == 'psk' or '/1e/1c/' in b['label']
+
+
 def k2_base(b):
-    """bases on which every PAIR of deviations is run: quick - one; thorough - every PSK base, and two RSA bases
-    (loading the RSA private key costs 4 ms, a thousand times the rest)"""
+    """bases on which every PAIR of deviations is run: quick - one; thorough - the 24 PSK bases that do not have
+    both two entries and two connections, and one RSA base (loading the RSA private key costs 4 ms per case, thirty
+    times the rest)"""
     if ck.quick:
         return b['label'] == 'psk/v4/esp/1e/1c/minimal'
-    return b['auth'] == 'psk' or b['label'] in ('rsa/v4/esp/1e/1c/full', 'rsa/v6/ah/1e/1c/minimal')
+    return (b['auth'] == 'psk' and '/2e/2c/' not in b['label']) or b['label'] == 'rsa/v4/esp/1e/1c/full'
 
 
 # ------------------------------------------------------------------ replay
@@ -586,8 +609,10 @@ def main():
         distinct.update(a)
         for k, v in r['outcomes'].items():
             outcomes[k] = outcomes.get(k, 0) + v
-        if len(samples) < 6 and u[0] in ('k1', 'k2', 'alg'):
-            samples += [s for s in r['samples'] if 'inf' not in s['dictionary'] and 'nan' not in s['dictionary']][:1]
+        if len(samples) < 6 and u[0] in ('k1', 'k2', 'alg') and BASES[u[1]]['auth'] == 'psk' and \
+                u[0] not in [x['family'] for x in samples[-2:]]:
+            samples += [dict(s, family=u[0]) for s in r['samples'] if 'inf' not in s['dictionary']
+                        and 'nan' not in s['dictionary'] and not s['deviations'][0].startswith('name')][:1]
         for sig, (msg, doc) in sorted(r['found'].items()):
             ck.violation(sig, '%s  [base %s, deviations %s; exact dictionary in the replay file]' % (
                 msg, doc['base'], ', '.join(doc['deviations']) or 'none'), doc)
@@ -604,7 +629,8 @@ def main():
         per_family=per_family,
         families=dict(k0='the %d valid bases themselves: PSK/RSA x IPv4/IPv6 x ESP/AH x 1-2 protect entries x 1-2 '
                          'connections x every optional key present/absent' % len(BASES),
-                      k1='every base x every single deviation',
+                      k1='every single deviation on %d bases%s' % (sum(k1_base(b) for b in BASES), ' (all PSK bases; RSA '
+                         'bases with 1 entry and 1 connection)' if ck.quick else ''),
                       k2='every pair of combinable deviations on the bases %s' % ', '.join(k2_labels),
                       alg='complete product over the 7 algorithm lists (IKE encr/integ/prf/dh, protect entry '
                           'encr/integ/dh) of {as documented, missing, []%s} on an ESP and an AH base' % (
@@ -632,7 +658,7 @@ def main():
         'gaierror); random.randint for a missing index is the deterministic stream of harness/seams.py',
         'transform order is compared per transform type (the order between types has no meaning in IKEv2)',
         'RSA keys: presence, and the loaded private key signs what the loaded public key verifies (the repository\'s '
-        'own sign/verify); pairs of deviations on RSA bases are limited to two bases (4 ms per key load)']
+        'own sign/verify); pairs of deviations are run on one RSA base only (4 ms per key load)']
     ck.finish()
 
 
